@@ -583,6 +583,31 @@ func cmdParse(args []string) int {
 		}
 	}
 
+	// very long queries (lengths around 2^16, 10^6 and 2^20: limits of buffers and of database engines),
+	// on the implementation only (the extracted model is quadratic in the length): the oracles, including
+	// the shift by leading newlines, which carries some of them across each boundary
+	if *replay == "" {
+		lr := newRng(*seed + 4242)
+		for _, n := range []int{65535, 65536, 65537, 999995, 999999, 1000000, 1000001, 1048575, 1048576, 1048577} {
+			for _, core := range []string{"SELECT foo FROM t WHERE x = $Address", "SELECT &Person.* FROM person WHERE id = $Person.id", "SELECT 1"} {
+				pad := n - len(core)
+				var q string
+				switch lr.intn(3) {
+				case 0:
+					q = core + strings.Repeat(" ", pad)
+				case 1:
+					q = core + " /*" + strings.Repeat("x", pad-5) + "*/"
+				default:
+					q = core + " AND y = '" + strings.Repeat("a", pad-10) + "'"
+				}
+				currentCase.Store(fmt.Sprintf("query of %d bytes", len(q)))
+				caseStart.Store(time.Now().UnixNano())
+				parseOracles(q, implParse(q), []int{1, 2, 5}, addViol)
+				caseStart.Store(0)
+			}
+		}
+	}
+
 	cases, _ := os.Create(*outDir + "/cases.txt")
 	impl, _ := os.Create(*outDir + "/impl.txt")
 	cw := bufio.NewWriter(cases)
